@@ -38,7 +38,11 @@ pub fn noise(g: &mut Gen, n: usize) -> String { (0..n).map(|_| ALPHABET[g.rng.be
 
 pub fn alias_line(g: &mut Gen, derom: bool) -> String {
     let repl = ["sh", "tt", "á", "+@{acute}", "\\u{00FE}", "@{Space}", "x"][g.rng.below(7)];
-    let seg = match g.rng.below(4) { 0 => "ʃ".to_string(), 1 => "a:[+stress]".to_string(), 2 => "V:[+long]".to_string(), _ => g.seg() };
+    let seg = match g.rng.below(6) { 0 => "ʃ".to_string(), 1 => "a:[+stress]".to_string(), 2 => "V:[+long]".to_string(),
+        // several elements, a class or matrix after a plain segment (matched up to the end of a syllable it has nothing left to look at)
+        3 => format!("{}{}", g.seg(), ["C", "V", "[+cons]", "[-syll]", "N", "C:[+voice]"][g.rng.below(6)]),
+        4 => format!("{}{}{}", ["C", "V", "[+son]"][g.rng.below(3)], g.seg(), ["", "C", "[+syll]"][g.rng.below(3)]),
+        _ => g.seg() };
     if derom { format!("{repl} > {seg}") } else if g.rng.chance(1, 6) { "$ > *".to_string() } else { format!("{seg} > {repl}") }
 }
 
@@ -60,7 +64,14 @@ pub fn spec(args: &[String]) -> i32 {
         }).collect();
         let words: Vec<String> = (0..1 + g.rng.below(3)).map(|_| if stream == 3 { let mut t = g.small_word(); if g.rng.chance(1, 2) { t = format!("{t}.{}", g.small_word()); } if g.rng.chance(1, 3) { t = format!("{t}.{}", ["a", "i", "ta", "n"][g.rng.below(4)]); } t } else { match g.rng.below(10) { 0 => { let k = g.rng.below(8); noise(&mut g, k) }, 1 => { let w = g.word(); mutate(&mut g, &w) }, 2 => g.small_word(), _ => g.word() } }).collect();
         let into: Vec<String> = if g.rng.chance(1, 8) { vec![if g.rng.chance(1, 3) { let k = g.rng.below(8); noise(&mut g, k) } else { alias_line(&mut g, true) }] } else { vec![] };
-        let from: Vec<String> = if g.rng.chance(1, 8) { vec![if g.rng.chance(1, 3) { let k = g.rng.below(8); noise(&mut g, k) } else { alias_line(&mut g, false) }] } else { vec![] };
+        let mut from: Vec<String> = if g.rng.chance(1, 8) { vec![if g.rng.chance(1, 3) { let k = g.rng.below(8); noise(&mut g, k) } else { alias_line(&mut g, false) }] } else { vec![] };
+        // edge-rule cases on small words: every fourth one prints through a romaniser with several input elements over the same
+        // small inventory, so that a match can run up to the end of a syllable or of the word
+        if stream == 3 && case % 16 == 3 {
+            let inv = ["a", "i", "u", "p", "t", "k", "s", "n"];
+            let a = inv[g.rng.below(8)]; let b = ["C", "V", "[+cons]", "[-syll]", "N", "C:[+voice]", "[+syll]"][g.rng.below(7)];
+            from = vec![match g.rng.below(3) { 0 => format!("{a}{b} > x"), 1 => format!("{b}{a}{b} > x"), _ => format!("{a}{}{b} > +y", inv[g.rng.below(8)]) }];
+        }
         let groups = [RuleGroup::from("g", rules.clone(), "")];
         st.inc("c02.cases"); st.inc(&format!("c02.stream{stream}"));
         // outcome of the three entry points
@@ -109,12 +120,14 @@ pub fn spec(args: &[String]) -> i32 {
             let rtype = if rule_for_label.replace(' ', "").contains("(,") { "empty-optional" } else if rule_for_label.replace(' ', "").contains("($,0)") { "boundary-only-unbounded-optional" } else if head.starts_with('*') || head.starts_with('∅') || has_empty_input_term { "insertion" } else if inp_has_bound && !rule_for_label.contains('&') && !rule_for_label.contains("> *") && !rule_for_label.contains("> ∅") { "substitution-with-boundary-input" } else if rule_for_label.contains('&') { "metathesis" } else if rule_for_label.contains("> *") || rule_for_label.contains("> ∅") { if inp_has_bound { "deletion-with-boundary-input" } else { "deletion" } } else { "substitution" };
             let kind = if let Some(p) = what.strip_prefix("panic ") {
                 let (msg, loc) = match p.rsplit_once(" @ ") { Some((m, l)) => (m, l), None => (p, "?") };
-                let mc = if msg.contains("PosOverflow") { "number-too-large" } else if msg.contains("index out of bounds") || msg.contains("out of range") { "index-out-of-bounds" } else if msg.contains("None") { "unwrap-none" } else if msg.contains("capacity overflow") || msg.contains("subtract with overflow") { "arithmetic" } else if msg.contains("not implemented") || msg.contains("unreachable") { "unimplemented-or-unreachable" } else { "other" };
+                let mc = if msg.contains("PosOverflow") { "number-too-large" } else if msg.contains("index out of bounds") || msg.contains("out of range") { "index-out-of-bounds" } else if msg.contains("None") { "unwrap-none" } else if msg.contains("capacity overflow") || msg.contains("subtract with overflow") { "arithmetic" } else if msg.contains("not implemented") || msg.contains("unreachable") { "unimplemented-or-unreachable" } else if msg.contains("Out of bounds access") { "segment-out-of-bounds" } else { "other" };
                 // the shape of the failing rule is part of the identity of a finding: the same function can fail for unrelated reasons
                 let inp = rule_for_label.split(|c| c == '>' || c == '→').next().unwrap_or("");
+                let out_part = rule_for_label.split(|c| c == '>' || c == '→').nth(1).unwrap_or("").split(|c| c == '/' || c == '|').next().unwrap_or("").to_string();
+                let out_has_length = out_part.contains("long");
                 let squeezed: String = rule_for_label.chars().filter(|c| !c.is_whitespace()).collect();
                 let empty_term = squeezed.contains(",,") || squeezed.starts_with(',') || [",>", ",=>", ",->", ",→", ",/", ",|"].iter().any(|x| squeezed.contains(x)) || squeezed.ends_with(',');
-                let shape = if loc.contains("/alias/") { "alias" } else if inp.contains('…') || inp.contains("..") { "input-ellipsis" } else if rtype == "insertion" { rtype } else if empty_term { "empty-list-term" } else { rtype };
+                let shape = if loc.contains("/alias/") { "alias" } else if inp.contains('…') || inp.contains("..") { "input-ellipsis" } else if rtype == "insertion" { rtype } else if empty_term { "empty-list-term" } else if rtype == "substitution" && out_has_length { "substitution-length-output" } else { rtype };
                 // an overflowing number and an `unreachable!()` are identified by the function they sit in
                 if mc == "number-too-large" || mc == "unimplemented-or-unreachable" { format!("c02-panic|{loc}|{mc}") } else { format!("c02-panic|{loc}|{mc}|{shape}") }
             } else { format!("c02-hang|{rtype}") };
